@@ -127,7 +127,8 @@ CHECKS = {
               "cache entry gone (exact reference counting invariant); pinned variant refuted. (ObC17.v) the connection cache is accessed only "
               "under the driver mutex, taken at most once per Open/Close (skeletons regenerated from driver.go), so every schedule is an "
               "operation list. Tied to the code by random well-formed histories vs the extracted state machine (fresh process each), "
-              "database/sql scenarios with pools 1..4, 16 goroutines' first use, lock probes. Partial: database/sql's pool policy is trusted."),
+              "database/sql scenarios with pools 1..4, 16 goroutines' first use, lock probes, relative and absolute data source names; the "
+              "name parsing of Open/openFile is modelled (Dsn.v: the cache key determines the options). Partial: database/sql's pool policy is trusted."),
         design="5/C17", technique="Coq proof (state-machine invariant with exact counting; lockset soundness) + source-to-skeleton translator + " + T_DIFF),
     "C18": dict(
         text=("Theorems: (Props/C18.v, AddRowConc.v) for every schedule of any number of threads executing AddRow as micro-steps under a mutex, "
@@ -140,7 +141,11 @@ CHECKS = {
     "C19": dict(
         text=("Theorems (Props/C19.v): header normalisation maps every code point to a-z or '_' (one byte per rune); record i is row i with field "
               "j under header column j; normal and --big modes give the same result; existing output or malformed CSV => error; the created "
-              "index answers every query like a row scan over the ingested records. Tied to the code by the built binary on CSVs written by "
+              "index answers every query like a row scan over the ingested records; from the BYTES of the file (CsvBytes.v: encoding/csv "
+              "reader with create.go's configuration, Go's rune decoding): every spelling of a table reads back exactly, ragged tables are "
+              "rejected, CR LF = LF, UTF-8 round trip, create_bytes(written table) = create(table). The reader / rune models are compared "
+              "with the real ones text by text (exhaustive for short texts) and the binary is run on hand-made files the model decides. "
+              "Tied to the code by the built binary on CSVs written by "
               "encoding/csv (hostile fields and headers, 0..1500 records) in both modes: exit status, second run on the existing output "
               "(hash unchanged), created index vs the model's index, malformed files, and header normalisation vs normalize_rune (sampled; all "
               "code points in thorough)."),
